@@ -14,6 +14,7 @@ from vf.monitors import PairingMonitor, describe
 from vf.ref import logic
 
 from ahbicht.content_evaluation import is_valid_expression
+from ahbicht.expressions import InvalidExpressionError
 from ahbicht.content_evaluation.fc_evaluators import text_to_be_evaluated_by_format_constraint
 from ahbicht.expressions.ahb_expression_evaluation import evaluate_ahb_expression_tree
 from ahbicht.expressions.expression_resolver import parse_expression_including_unresolved_subexpressions
@@ -68,7 +69,7 @@ async def check_orders(ctx, case):
     baseline = await sched.run_under(None, lambda: pipeline(s, make_world(case)))
     ctx.evaluation()
     if baseline[0] != "ok":
-        if type(baseline[1]).__name__ not in ("InvalidExpressionError",):
+        if not isinstance(baseline[1], InvalidExpressionError):  # (subclasses of it are as good: an invalid expression is refused)
             ctx.violation(f"baseline-raises-{type(baseline[1]).__name__}", f"{s!r} (nothing yields) {describe(baseline)[:300]}")
         return
     base = summarise(baseline)
@@ -370,10 +371,13 @@ async def check_failure_isolation(ctx, case):
         return out
 
     baselines = []
+    first_outcome = None
     for i, s in enumerate(exprs):
         w = E.World(f"task{i}", rc=dict(table), fc=dict(fcs), fc_msg={k: f"E{k}" for k in fcs})
-        baselines.append(summarise(await sched.run_under(None, lambda s=s, w=w: pipeline(s, w))))
-    if baselines[0] != "exc:InvalidExpressionError":
+        outcome = await sched.run_under(None, lambda s=s, w=w: pipeline(s, w))
+        first_outcome = first_outcome or outcome
+        baselines.append(summarise(outcome))
+    if not (first_outcome[0] == "exc" and isinstance(first_outcome[1], InvalidExpressionError)):
         ctx.count("failure_isolation_skipped")
         return
     for chooser in (sched.FifoChooser(), sched.LifoChooser(), sched.RandomChooser(rng), sched.RandomChooser(rng), sched.RandomChooser(rng)):
